@@ -370,10 +370,13 @@ def sumifs(sum_range, *args):
     if isinstance(coords, str):
         return coords
 
-    return sum(_numerics(
-        (sum_range[r][c] for r, c in coords),
-        keep_bools=True
-    ))
+    data = _numerics((sum_range[r][c] for r, c in coords), keep_bools=True)
+
+    # A returned string is the first error code among the selected cells
+    if isinstance(data, str):
+        return data
+
+    return sum(data)
 
 
 def sumproduct(*args):
